@@ -22,6 +22,18 @@ register("C17", "proof",
          "contract obligations per table line, discharged by exhaustive enumeration (GROUND) against an independent oracle",
          "DESIGN.md 5 (C17)")
 
+register("C18", "proof",
+         "Verification conditions generated from the repository's f2_algebra.py (read from the working tree on every run) by "
+         "our symbolic interpreter, over ALL bit matrices of each listed shape: whole-function merged VCs for small shapes, a "
+         "loop-invariant proof of rref (init / preserve per (h,k) / exit) plus a per-iteration row-space relation decided by ANF "
+         "for the library's shapes, rank and null_space verified modularly against rref's contract with a symbolic pivot set, "
+         "rref_and_basis_change on small shapes. Discharged by ANF normal form, z3 and cvc5. 'Any shape' is claimed only for the "
+         "shapes listed in the evidence (quick: validate shapes and layer-search shapes up to 12 columns; thorough: up to 36x24).",
+         TRUST + " Background lemmas M2/M3/M4 lift the proved clauses (RREF form, kernel equality, free-column echelon pattern) to "
+         "the property sentence. Random matrices up to 40x30 are a BOUNDED stand-in, not counted.",
+         "pyvc VC generation from the real AST + ANF/z3/cvc5; loop invariants; modular callee contracts",
+         "DESIGN.md 5 (C18)")
+
 NOT_APPLICABLE = []   # every property is claimed; sub-claims outside the family's reach are labelled in the evidence
 
 
